@@ -18,6 +18,17 @@ binds against which argument list (Impl, shaped like signature_from_value / _unc
 evaluating the call does under CPython (Ref).  Cases are realised by harness/c05_kinds.py as real source checked by the
 real visitor (call in the defining module and, for every fourth module, in an importing module) and REALLY PERFORMED;
 spec/trace/CallableKindsTrace.tla judges.
+
+Inferred star arguments (first mechanism, preprocess_args beyond literals): spec/StarPrep.tla models the ActualArguments
+that `*` of an inferred tuple value (exact, with an unpacked segment, union of lengths, list) and `**` of an inferred
+dict value (DictIncompleteValue pairs required / optional / non-literal key / literal-union key / **mapping, duplicate
+keys in either order, TypedDict with NotRequired keys, union of dict literals), several of them merged, are turned into
+(Impl: preprocess_args, _preprocess_kwargs_no_mvv, _preprocess_kwargs_kv_pairs, concrete_values_from_iterable, and the
+"may not be provided" branches of bind_arguments) against the set of concrete calls the source can perform (Ref).
+harness/c05_prep.py realises every case as source that builds the values with cond()-guarded spreads, reads the value
+pyanalyze inferred for each star argument back from the annotated tree (TLC rejects a realisation that does not produce
+the intended abstract value), and really executes the same statements for every combination of the opaque inputs;
+spec/trace/StarPrepTrace.tla judges.
 """
 from __future__ import annotations
 
@@ -28,6 +39,7 @@ import re
 from typing import Any, Optional
 
 from .. import c05_kinds as ck
+from .. import c05_prep as cp
 from .. import core, pyz
 
 LEVEL = "model_checking"
@@ -404,10 +416,16 @@ def _kinds_selftest_observations() -> tuple[list[dict], dict[int, list[str]]]:
     clause of CallableKindsTrace.tla).  Returns (observations, {tid: expected verdicts})."""
     a = {"kind": "pk", "name": "a", "dflt": False}
     one = dict(ck.NOCALL, pos=1)
-    good = _kinds_chunk((0, [{"kind": "meth", "via": "known", "sig": [a], "call": one},
-                             {"kind": "newstar", "via": "class", "sig": [a], "call": one},
-                             {"kind": "newstar", "via": "class", "sig": [a], "call": ck.NOCALL},
-                             {"kind": "bare", "via": "class", "sig": [], "call": one}], False))
+    # synthetic observations (what the unchanged tree does for these four cases, written down here): the self-test must
+    # not depend on the behaviour of the tree under test; only the CPython outcome is really computed
+
+    def synth(kind: str, via: str, sig: list, call: dict, vis: str, vispos: list) -> dict:
+        c = {"kind": kind, "via": via, "sig": sig, "call": call}
+        cpy, exp = ck.real_cpython(c)
+        return {"tid": 0, "case": c, "vis": vis, "vispos": vispos, "cpy": cpy, "exp": exp, "imp": False}
+
+    good = [synth("meth", "known", [a], one, "ok", ["P0", "P1"]), synth("newstar", "class", [a], one, "ok", ["nohook"]),
+            synth("newstar", "class", [a], ck.NOCALL, "ok", ["nohook"]), synth("bare", "class", [], one, "ok", ["nohook"])]
     t = KIND_SELFTEST_TID
     meth, nsok, nsdev, bare = good
     obs = [
@@ -420,7 +438,7 @@ def _kinds_selftest_observations() -> tuple[list[dict], dict[int, list[str]]]:
         dict(nsok, tid=t + 6, vis="err"),                         # inside a deviating kind, but not what its model predicts
         dict(bare, tid=t + 7),
     ]
-    hook = meth["vispos"] != ["nohook"]
+    hook = True
     expect = {
         t: [], t + 1: ["viol:KindBinding", "drift:kind-verdict"], t + 2: ["oracle:kind-concrete-call"],
         t + 3: ["drift:kind-hook-positions"] if hook else [], t + 4: ["viol:KindNoVerdict"],
@@ -526,7 +544,7 @@ def run_kinds(check: core.Check, quick: bool, rnd: random.Random, emit_future: A
     if not cases:
         raise core.MachineryError("no callable-kind cases emitted by TLC")
     n_model = len(cases)
-    cases, exhaustive = _kinds_sample(cases, 9000 if quick else 80000, rnd)
+    cases, exhaustive = _kinds_sample(cases, 6500 if quick else 80000, rnd)
     judge_kinds(check, cases, "tlc-kinds", selftest=True)
     kc = check.cov["kinds"]
     kc.update({"model_cases": n_model, "replayed_cases": len(cases), "replay_exhaustive": exhaustive})
@@ -534,7 +552,7 @@ def run_kinds(check: core.Check, quick: bool, rnd: random.Random, emit_future: A
     if missing:
         raise core.MachineryError(f"callable kinds never replayed: {missing}")
     # beyond the exhaustive bound: simulation up to 4 parameters beyond the receiver and wide calls
-    num = 1500 if quick else 20000
+    num = 1000 if quick else 20000
     sim = core.require_ok(
         core.run_tlc("CallableKindsEmit", "CallableKinds.sim.cfg", workers=1, simulate=f"num={num}", depth=12,
                      seed=check.seed + 11, timeout=1800),
@@ -546,8 +564,8 @@ def run_kinds(check: core.Check, quick: bool, rnd: random.Random, emit_future: A
     if len(uniq) < num // 4:
         raise core.MachineryError(f"callable-kinds simulation produced only {len(uniq)} distinct cases")
     sims = list(uniq.values())
-    if len(sims) > (1500 if quick else 15000):
-        sims = rnd.sample(sims, 1500 if quick else 15000)
+    if len(sims) > (1000 if quick else 15000):
+        sims = rnd.sample(sims, 1000 if quick else 15000)
     judge_kinds(check, sims, "tlc-kinds-simulate")
     check.cov["rule"] += "; callable kinds (CallableKinds.tla): see kinds.rule"
     kc["rule"] = (
@@ -558,6 +576,148 @@ def run_kinds(check: core.Check, quick: bool, rnd: random.Random, emit_future: A
         "CallableKinds.thorough.cfg (<=3 parameters, <=2 positionals, <=2 keywords, <=1 dict key), replayed from CallableKinds.emit.cfg (<=3 parameters, call bounds of the quick configuration); "
         "plus simulation on CallableKinds.sim.cfg (<=4 parameters, <=3 positionals, <=3 keywords)"
     )
+
+
+# ----------------------------------------------------------------------------- inferred star arguments (StarPrep.tla)
+
+PREP_ACTIONS = [
+    "AddParam", "EndParams", "PChoosePositional", "AddStar", "EndStars", "PChooseKeywords", "NewDstar", "AddPair", "AddAlt",
+    "EndDstars", "Ends_Ok", "Ends_MultipleValues", "Ends_PosOrKwMaybeMissing", "Ends_KwOnlyMaybeMissing",
+    "Ends_StarAndKeyword", "Ends_ExtraKeywords", "Ends_OtherError",
+]
+PREP_SELFTEST_TID = 2 * 10**8
+
+
+def _prep_chunk(arg: tuple[int, list[dict]]) -> list[dict]:
+    base, part = arg
+    vs = cp.visitor_observe(part)
+    return [{"tid": base + i, "case": c, **v, "exp": cp.real_cpython(c)} for i, (c, v) in enumerate(zip(part, vs))]
+
+
+def _prep_selftest_observations() -> tuple[list[dict], dict[int, list[str]]]:
+    a = {"kind": "pk", "name": "a", "dflt": False}
+    req = {"key": "a", "req": True, "many": False}
+    opt = {"key": "a", "req": False, "many": False}
+
+    def case(pairs: list[dict]) -> dict:
+        return {"sig": [a], "call": {"pos": 0, "stars": [], "post": 0, "kws": [],
+                                     "dstars": [{"form": "pairs", "pairs": pairs, "alt": []}]}}
+
+    # synthetic observations (what the unchanged tree does, written down here, so that the self-test does not depend on
+    # the tree under test); only the executions under CPython are real
+
+    def synth(pairs: list[dict], vis: str) -> dict:
+        c = case(pairs)
+        return {"tid": 0, "case": c, "vis": vis, "vispos": ["nohook"],
+                "seen": {"stars": [], "dstars": c["call"]["dstars"]}, "exp": cp.real_cpython(c)}
+
+    plain, req_opt, opt_req = synth([req], "ok"), synth([req, opt], "ok"), synth([opt, req], "err")
+    t = PREP_SELFTEST_TID
+    obs = [
+        dict(plain, tid=t),
+        dict(plain, tid=t + 1, vis="err"),                                          # verdict flipped
+        dict(plain, tid=t + 2, seen={"stars": [], "dstars": [{"form": "pairs", "pairs": [opt], "alt": []}]}),
+        dict(plain, tid=t + 3, exp={"total": 1, "binding": []}),                     # recorded CPython outcome flipped
+        dict(req_opt, tid=t + 4),                                                   # {"a": 0, **opt}: accepted
+        dict(req_opt, tid=t + 5, vis="err"),                                        # ... the last pair deciding presence
+        dict(opt_req, tid=t + 6),                                                   # {**opt, "a": 0}: the known deviation
+    ]
+    expect = {t: [], t + 1: ["viol:PrepConcrete", "drift:prep-verdict"], t + 2: ["oracle:prep-realisation"],
+              t + 3: ["oracle:prep-expansions"], t + 4: [], t + 5: ["viol:PrepConcrete", "drift:prep-verdict"],
+              t + 6: ["dev:required-key-shadowed-by-earlier-optional-pair"]}
+    return obs, expect
+
+
+def judge_prep(check: core.Check, cases: list[dict], label: str, selftest: bool = False) -> None:
+    pyz.get_checker()
+    chunks = [(g, cases[g : g + KIND_GROUP]) for g in range(0, len(cases), KIND_GROUP)]
+    obs = [o for part in core.pmap(_prep_chunk, chunks, chunk=1) for o in part]
+    expect: dict[int, list[str]] = {}
+    if selftest:
+        extra, expect = _prep_selftest_observations()
+        obs = obs + extra
+    verdicts, stats = adjudicate_parallel("StarPrepTrace", "StarPrepTrace.cfg", obs, batch=2500, parallel=8)
+    for tid, want in expect.items():
+        got = verdicts.get(tid, [])
+        if sorted(got) != sorted(want):
+            raise core.MachineryError(f"star-preprocessing trace self-test: observation {tid}: expected {want}, TLC said {got}")
+    if expect:
+        check.cov["sensitivity_prep_trace"] = (
+            f"{len(expect)} corrupted / deviating observations adjudicated with the real ones: flipped verdict -> viol:PrepConcrete, "
+            "another inferred value than the case names -> oracle:prep-realisation, flipped CPython outcome -> oracle, "
+            "{'a': 0, **opt} reported as possibly missing (the last pair deciding presence) -> viol, {**opt, 'a': 0} -> dev"
+        )
+    check.add_trace_stats(stats)
+    pc = check.cov.setdefault("prep", {"observations": 0, "expansions_executed": 0, "with_possible_keys": 0, "bind_hook_observations": 0})
+    for o in obs:
+        if o["tid"] in expect:
+            continue
+        c = o["case"]
+        check.evals(1)
+        pc["observations"] += 1
+        pc["expansions_executed"] += o["exp"]["total"]
+        pc["with_possible_keys"] += 1 if any(not p["req"] or p["key"] == "ab" for d in c["call"]["dstars"] for p in d["pairs"]) else 0
+        pc["bind_hook_observations"] += 1 if o["vispos"] not in (["none"], ["nohook"]) else 0
+        if c["sig"] and (c["call"]["stars"] or c["call"]["dstars"]):
+            check.nontrivial(core.canon(c))
+        for v in verdicts.get(o["tid"], []):
+            r = cp.realise(c)
+            payload = {"case": c, "defs": r["defs"], "body": r["body"], "vis": o["vis"], "vispos": o["vispos"],
+                       "seen": o["seen"], "exp": o["exp"], "source": label}
+            if v.startswith("viol:"):
+                check.violation(core.canon(c), v[5:], payload)
+            elif v.startswith("dev:"):
+                check.violation(v[4:], v[4:], payload)
+            elif v.startswith("drift:"):
+                check.drift({"verdict": v, **payload})
+            else:
+                raise core.MachineryError(f"{v} for {r['defs']} ; {r['body']}: seen {o['seen']}, expansions {o['exp']}")
+    for o in obs[:: max(1, len(obs) // 3)][:3]:
+        r = cp.realise(o["case"])
+        check.sample({"source": label, "defs": r["defs"], "body": r["body"], "vis": o["vis"], "vispos": o["vispos"],
+                      "expansions": o["exp"]["total"], "binding": len(o["exp"]["binding"])}, limit=18)
+
+
+def run_prep(check: core.Check, quick: bool, rnd: random.Random, futures: dict[str, Any]) -> None:
+    check.assumptions += [
+        "inferred star arguments: tuple / dict values are built inside the calling function from literals, cond()-guarded "
+        "spreads, parameters typed str / Literal['a','b'] / dict[str, int] / list[int] / unions of tuple types / a TypedDict; the "
+        "value pyanalyze infers for every star argument is read back and must equal the case's abstract value; unknown keys and "
+        "mappings range over a, b, z and the parameter names, unknown segments over 0..4 elements",
+        "for a call with more than one possible expansion the clauses are the existential ones of the property text; "
+        "pyanalyze's deliberate strictness about possibly-present keys is recorded as the named class "
+        "possibly-present-key-treated-pessimistically (it is excused only where some expansion really fails to bind)",
+    ]
+    res = core.require_ok(futures["quick"].result(), "StarPrep exhaustive")
+    core.require_coverage(res, PREP_ACTIONS, "StarPrep")
+    check.add_tlc("exhaustive+coverage:StarPrep.quick.cfg", res)
+    cases = core.emitted_json(res)  # one ** argument of <= 2 pairs or one * argument: replayed exhaustively
+    n_first = len(cases)
+    for name, cap in (("quick2", 900), ("quick3", 900)):
+        r = core.require_ok(futures[name].result(), "StarPrep exhaustive " + name)
+        check.add_tlc(f"exhaustive:StarPrep.{name}.cfg", r)
+        more = core.emitted_json(r)
+        cases += more if len(more) <= cap else rnd.sample(more, cap)
+    if not quick:
+        big = core.require_ok(core.run_tlc("StarPrepEmit", "StarPrep.thorough.cfg", timeout=3300), "StarPrep thorough")
+        check.add_tlc("exhaustive:StarPrep.thorough.cfg", big)
+        more = core.emitted_json(big)
+        del big
+        cases += rnd.sample(more, min(len(more), 60000))
+    cases = list({core.canon(c): c for c in cases}.values())
+    if n_first < 1000:
+        raise core.MachineryError(f"StarPrep.quick.cfg emitted only {n_first} cases")
+    judge_prep(check, cases, "tlc-prep", selftest=True)
+    check.cov["prep"].update({
+        "replayed_cases": len(cases), "exhaustive_family": n_first,
+        "rule": "cases = states with stage=done of StarPrep.tla: signature x (positionals, <=MaxStars inferred * arguments from "
+                "{exact 0..2, with unpacked segment, union of lengths, list}, positionals after them, keywords, <=MaxDstars inferred "
+                "** arguments: dict displays of <=MaxPairs pairs over {literal a/b/z required or optional, str key, Literal['a','b'] "
+                "key, **dict[str,int]}, TypedDicts, unions of two dict literals); quick: StarPrep.quick.cfg (<=1 parameter, one star "
+                "argument, <=2 pairs; replayed exhaustively), quick2 (<=2 parameters, one star argument), quick3 (two star arguments "
+                "merged); thorough adds StarPrep.thorough.cfg (<=2 parameters, two star arguments, 725k cases, 60k replayed)",
+    })
+    check.cov["rule"] += "; inferred star arguments (StarPrep.tla): see prep.rule"
 
 
 def run(check: core.Check) -> None:
@@ -575,8 +735,8 @@ def run(check: core.Check) -> None:
     # 1. the design: exhaustive model checking of the binder machine against the CPython reference
     # (the quick-bound run also emits its cases, which the quick tier replays; the thorough tier replays the
     # cases of a separate emission run on a middle bound, see 2.)
-    # Vacuity control (-coverage 1 makes TLC about 3x slower): the quick bound is run with coverage in both
-    # tiers -- every action of the machine must fire there; the two big thorough runs go without it.
+    # Vacuity control (-coverage 1 makes TLC about 3x slower): a <=2-parameter bound is run with coverage in both
+    # tiers -- every action of the machine must fire there; the quick bound and the two big thorough runs go without it.
     from concurrent.futures import ThreadPoolExecutor
 
     pool = ThreadPoolExecutor(6)
@@ -584,6 +744,11 @@ def run(check: core.Check) -> None:
     # run_kinds) and all sensitivity runs (seeded model bugs and the strict, deviation-free invariants must be rejected)
     kinds_future = pool.submit(core.run_tlc, "CallableKindsEmit", "CallableKinds.quick.cfg", timeout=3000, workers=8)
     kinds_cov_future = pool.submit(core.run_tlc, "CallableKinds", "CallableKinds.cov.cfg", coverage=True, timeout=900, workers=2)
+    prep_futures = {
+        "quick": pool.submit(core.run_tlc, "StarPrepEmit", "StarPrep.quick.cfg", coverage=True, timeout=900, workers=4),
+        "quick2": pool.submit(core.run_tlc, "StarPrepEmit", "StarPrep.quick2.cfg", timeout=900, workers=4),
+        "quick3": pool.submit(core.run_tlc, "StarPrepEmit", "StarPrep.quick3.cfg", timeout=900, workers=4),
+    }
     sens_cfgs = (
         ("Binder", "Binder.sens1.cfg", "ConcreteAgrees"),
         ("Binder", "Binder.sens2.cfg", "ConcreteAgrees"),
@@ -596,12 +761,24 @@ def run(check: core.Check) -> None:
         ("CallableKinds", "CallableKinds.sens3.cfg", "KindConcrete"),
         ("CallableKinds", "CallableKinds.strict1.cfg", "KindConcreteStrict"),
         ("CallableKinds", "CallableKinds.strict2.cfg", "KindAcceptSoundStrict"),
+        # inferred star arguments: the LAST pair for a key deciding whether it is definitely provided; an unpacked
+        # segment contributing no element; the deviation-free invariants
+        ("StarPrep", "StarPrep.sens1.cfg", "PrepConcrete"),
+        ("StarPrep", "StarPrep.sens2.cfg", "PrepRejectSound"),
+        ("StarPrep", "StarPrep.strict1.cfg", "PrepConcreteStrict"),
+        ("StarPrep", "StarPrep.strict2.cfg", "PrepAcceptSoundStrict"),
+        ("StarPrep", "StarPrep.strict3.cfg", "PrepRejectSoundStrict"),
     )
     sens_futures = [pool.submit(core.run_tlc, m, c, timeout=900, workers=2) for m, c, _ in sens_cfgs]
     fixed_future = pool.submit(core.run_tlc, "Binder", "Binder.fixed.cfg", timeout=900, workers=4)
-    res = core.require_ok(core.run_tlc("BinderEmit", "Binder.quick.cfg", coverage=True, timeout=3000), "Binder exhaustive")
-    core.require_coverage(res, BIND_ACTIONS, "Binder")
-    check.add_tlc("exhaustive+coverage:Binder.quick.cfg", res)
+    # (vacuity control moved to the <=2-parameter bound Binder.cov.cfg, where every action of the machine still fires:
+    # -coverage 1 on the 1.2M-state quick bound cost more CPU than all other runs of this check together)
+    binder_cov_future = pool.submit(core.run_tlc, "Binder", "Binder.cov.cfg", coverage=True, timeout=1800, workers=4)
+    res = core.require_ok(core.run_tlc("BinderEmit", "Binder.quick.cfg", timeout=3000), "Binder exhaustive")
+    check.add_tlc("exhaustive:Binder.quick.cfg", res)
+    bcov = core.require_ok(binder_cov_future.result(), "Binder coverage")
+    core.require_coverage(bcov, BIND_ACTIONS, "Binder")
+    check.add_tlc("exhaustive+coverage:Binder.cov.cfg", bcov)
     if not quick:
         # <= 4 parameters with wide calls, and <= 5 parameters (all five kinds at once) with narrower calls
         for big in ("Binder.thorough.cfg", "Binder.thorough5.cfg"):
@@ -655,11 +832,15 @@ def run(check: core.Check) -> None:
     judge(check, list(uniq.values()), "tlc-simulate", n_visitor=600 if quick else 6000, rnd=rnd)
     # 4. the kind of callable object and the access path (signature extraction from runtime objects)
     run_kinds(check, quick, rnd, kinds_future, kinds_cov_future)
+    # 5. preprocessing of inferred star arguments (DictIncompleteValue / SequenceValue / unions / TypedDict)
+    run_prep(check, quick, rnd, prep_futures)
     pool.shutdown()
 
 
 def replay(check: core.Check, witness: dict) -> None:
-    if "kind" in witness["case"]:
+    if "stars" in witness["case"].get("call", {}):
+        judge_prep(check, [witness["case"]], "replay")
+    elif "kind" in witness["case"]:
         judge_kinds(check, [witness["case"]], "replay", imported=bool(witness.get("imported")))
     else:
         judge(check, [witness["case"]], "replay", n_visitor=1)
